@@ -1,6 +1,7 @@
 import Driver.Frame
 import KrakenModel.Model.FileCleanup
 import KrakenModel.Model.ForceCleanup
+import KrakenModel.Model.CommitWB
 /- Driver for C10.  Machine `fstore`: a cache file store with an LRU file map and the cleanup manager
    (lib/store, lib/store/base).  Machine `forceclean`: origin/blobserver's forced cleanup (`maybeDelete`).
 
@@ -292,6 +293,25 @@ def step (s : St) (kind : String) (args impl : List String) : Option (St × Step
         else []
       | _ => []
     pure (s, { obs, branch := s!"maybedelete.{outTok out.result}", propfails := pf })
+  | "commit" :: rest => do
+    -- `one commit dup=0|1 addfail=0|1 len=N => ok|fail called=0|1 flagq=-|0|1 delq=-|persisted|ok|notexist flag=… present=…`
+    -- an upload commit over HTTP; `flagq` / `delq`: the blob's persist flag and the answer of a DeleteCacheFile
+    -- attempt at the moment the write-back task is handed to the manager (inside its Add)
+    let addfail ← (kv? rest "addfail").bind bool?
+    let s1 := KrakenModel.CommitWB.step {} (.prog true)
+    let called := s1.pc == .marked
+    let s1d := KrakenModel.CommitWB.step s1 .delete
+    let s2 := KrakenModel.CommitWB.step s1d (.prog (!addfail))
+    let obs := [if s2.pc == .done then "ok" else "fail", s!"called={boolTok called}", s!"flagq={boolTok s1.persist}",
+      s!"delq={if s1d.present then "persisted" else "ok"}", s!"flag={boolTok s2.persist}", s!"present={boolTok s2.present}"]
+    let pf : List String :=
+      match impl with
+      | [_, cl, fq, dq, _, pr] =>
+        if cl = "called=1" ∧ (fq ≠ "flagq=1" ∨ dq ≠ "delq=persisted") then
+          [s!"side=impl key=task-queued-before-protected at the moment the write-back task was handed to the manager the blob had {fq} and a delete request answered {dq} (afterwards {pr})"]
+        else []
+      | _ => []
+    pure (s, { obs, branch := if addfail then "commit.addfail" else "commit.queued", propfails := pf })
   | _ => none
 
 def machine : Machine := { σ := St, name := "forceclean", init := fun _ => some {}, step := step }
